@@ -132,6 +132,11 @@ struct ValueGen {
             }
             add("nest", nest);
         }
+        {
+            Node one = Node::mk(Node::Array); // exactly one item: loops over it can nest hundreds deep at linear cost
+            one.items.push_back(scalar());
+            add("one", one);
+        }
         // a mismatching value: wrong kinds under the same names / positions
         if (r.chance(1, 4)) {
             if (as_array) {
@@ -224,9 +229,9 @@ struct TemplateGen {
 
     // names as they are written in a tag: keys for object roots, positions for array roots
     std::string top(const char *key) {
-        static const char *order[] = {"name", "n1", "n2", "d1", "t", "f", "nul", "html", "zero", "msg", "list", "objs", "nest"};
+        static const char *order[] = {"name", "n1", "n2", "d1", "t", "f", "nul", "html", "zero", "msg", "list", "objs", "nest", "one"};
         if (!root_is_array) return key;
-        for (size_t i = 0; i < 13; i++)
+        for (size_t i = 0; i < 14; i++)
             if (strcmp(order[i], key) == 0) return std::to_string(i);
         return "99";
     }
@@ -450,7 +455,137 @@ struct TemplateGen {
         s += text();
         return s;
     }
+    // shapes beyond the 8-bit counters of the tag records: more than 255 enclosing tags around a loop, more than 255
+    // sub-tags inside one inline if / super variable
+    std::string deep_document() {
+        std::string s, close;
+        char        q = '"';
+        if (r.chance(1, 2)) {
+            // an earlier sorted / grouped loop at an outer level whose slot a wrapped level could alias
+            s += "<loop set=" + std::string(1, q) + top("list") + q + " value=" + q + "e" + q + " sort=" + q + "ascend" + q + ">{var:e}</loop>";
+        }
+        bool   outer_loop = r.chance(1, 2);
+        if (outer_loop) {
+            s += std::string("<loop set=") + q + top("list") + q + " value=" + q + "a" + q + ">";
+            close = "</loop>";
+        }
+        size_t n = 250 + (size_t)r.below(14);
+        int    wrappers = 0; // each wrapper loop multiplies the work by the size of the root: keep the product small
+        bool   all_loops = r.chance(1, 2); // loops over a one-item list: the loop depth itself passes 255
+        for (size_t i = 0; i < n; i++) {
+            if (all_loops) {
+                s += std::string("<loop set=") + q + top("one") + q + " value=" + q + "x" + std::to_string(i) + q + ">";
+                close = std::string(i == 0 ? "{var:x0}" : "") + "</loop>" + close;
+            } else if (wrappers < 1 && r.chance(1, 40)) {
+                wrappers++;
+                s += "<loop value=" + std::string(1, q) + "w" + std::to_string(i) + q + ">";
+                close = "</loop>" + close;
+            } else {
+                s += "<if case=" + std::string(1, q) + "1" + q + ">";
+                close = "</if>" + close;
+            }
+        }
+        s += std::string("<loop set=") + q + top("list") + q + " value=" + q + "b" + q + (r.chance(1, 2) ? std::string(" sort=") + q + "descend" + q : std::string()) + ">[{var:b}]</loop>";
+        if (outer_loop) s += "[{var:a}]";
+        if (all_loops) s += "{var:x" + std::to_string(n - 1) + "}{var:x" + std::to_string(n / 2) + "}";
+        return s + close;
+    }
+    std::string many_subtags_document() {
+        size_t      n = 250 + (size_t)r.below(14);
+        char        q = r.chance(1, 2) ? '"' : '\'';
+        std::string t, f;
+        for (size_t i = 0; i < n; i++) t += (i % 3 == 0) ? "{var:" + top("name") + "}" : (i % 3 == 1) ? "{raw:" + top("n1") + "}" : "{math:1+" + std::to_string(i) + "}";
+        f = "{var:" + top("n2") + "}";
+        std::string cond = r.chance(1, 2) ? "{var:" + top("zero") + "}" : "{var:" + top("t") + "}";
+        std::string s = "{if case=" + std::string(1, q) + cond + q;
+        if (r.chance(1, 2))
+            s += std::string(" true=") + q + t + q + " false=" + q + f + q + "}";
+        else
+            s += std::string(" false=") + q + f + q + " true=" + q + t + q + "}";
+        if (r.chance(1, 2)) {
+            s += "{svar:" + top("msg");
+            for (size_t i = 0; i < n; i++) s += ",{var:" + top("name") + "}";
+            s += "}";
+        }
+        return s;
+    }
+    // markup fragments in any order: what a half-edited template looks like. Tags open inside unfinished tags,
+    // closers meet the wrong opener, attribute quotes pair up across tags.
+    std::string soup_document() {
+        static const char *frag[] = {"{if", "{if ", "case=", " case=\"", " case='", "true=", " true=\"", " false='", "false=", "{svar:", "{var:", "{raw:", "{math:",
+                                     "<if", "<if ", "<if case=\"", "<loop", "<loop ", " value=\"", " value='", "set=\"", " sort=\"ascend\"", " group=\"",
+                                     "<else", "<else>", "<else />", "<elseif", "<elsei", "<elseif case=\"", "</if>", "</loop>", ">", "}", "\"", "'", ",", " ", "f",
+                                     "1", "0", "==", "+", "(", ")", "[", "]", "v", "x"};
+        const size_t nfrag = sizeof(frag) / sizeof(frag[0]);
+        std::string  s;
+        size_t       n = 3 + (size_t)r.below(24);
+        for (size_t i = 0; i < n; i++) {
+            uint64_t k = r.below(10);
+            if (k < 7)
+                s += frag[r.below(nfrag)];
+            else if (k == 7)
+                s += scalar_path();
+            else if (k == 8)
+                s += top(r.chance(1, 2) ? "list" : "name");
+            else if (budget > 0)
+                s += tag(1);
+        }
+        return s;
+    }
+    // block tags opened inside an inline tag that is still open, then closers and else-branches that no longer
+    // match what the parser has on its stack
+    std::string misnested_document() {
+        char        q  = r.chance(1, 2) ? '"' : '\'';
+        std::string Q(1, q);
+        std::string s = text();
+        if (r.chance(1, 3)) s += "<loop set=" + Q + top("list") + Q + " value=" + Q + "o" + Q + ">";
+        if (r.chance(1, 2))
+            s += "{if case=" + Q + expr(1) + Q + (r.chance(1, 2) ? " true=" : " false=") + Q;
+        else if (r.chance(1, 2))
+            s += "{if case=f"; // the quote of the case is a letter: it ends inside a later tag name
+        else
+            s += "{svar:" + top("msg") + ",";
+        auto inner = [&]() -> std::string {
+            switch (r.below(8)) {
+                case 0: return "<if case=" + Q + "1" + Q + ">";
+                case 1: return "<if";
+                case 2: return "<loop value=" + Q + "m" + Q + ">";
+                case 3: return "<loop>";
+                case 4: return "<loop set=" + Q + top("list") + Q + " value=" + Q + "m" + Q + " sort=" + Q + "ascend" + Q + ">";
+                case 5: return "{var:m}";
+                case 6: return "{var:" + top("name") + "}";
+                default: return text();
+            }
+        };
+        size_t n = 1 + (size_t)r.below(4);
+        for (size_t i = 0; i < n; i++) s += inner();
+        if (r.chance(1, 2)) s += Q;
+        s += "}";
+        auto outer = [&]() -> std::string {
+            switch (r.below(12)) {
+                case 0: return "<else>";
+                case 1: return "<elsei>";
+                case 2: return "<elseif case=" + Q + "1" + Q + ">";
+                case 3: return "</if>";
+                case 4: return "</loop>";
+                case 5: return "<loop value=" + Q + "w" + Q + ">";
+                case 6: return "<loop{var:" + Q + "}";
+                case 7: return "{var:m}";
+                case 8: return "{var:w}{math:{var:m}+1}";
+                case 9: return "}";
+                case 10: return budget > 0 ? tag(1) : text();
+                default: return text();
+            }
+        };
+        n = 1 + (size_t)r.below(6);
+        for (size_t i = 0; i < n; i++) s += outer();
+        return s;
+    }
     std::string document(int depth) {
+        if (r.chance(1, 12)) return soup_document();
+        if (r.chance(1, 12)) return misnested_document();
+        if (r.chance(1, 50)) return text() + deep_document() + text();
+        if (r.chance(1, 50)) return text() + many_subtags_document() + text();
         return block(depth);
     }
 };
